@@ -37,7 +37,9 @@ def main():
                                                             "assertion for ALL digit and scalar contents; bounds: " + c.get("bounds_quick", "")[:600]),
                                design_ref=c.get("design_ref", "DESIGN.md sections 4 and 9, " + pid)),
             level_note=c.get("level_note") or ("outside the claim: " + (c.get("outside", "") or "operands beyond the stated shapes") + " | trusted: " + "; ".join(c.get("trusted", []) + props.COMMON_TRUSTED))[:1800],
-            technique=c.get("technique", "Kani/CBMC bounded model checking of unit harnesses injected into a copy of the real code"),
+            technique=c.get("technique") or ("Kani/CBMC bounded model checking (SAT) of unit harnesses injected into a copy of the real code"
+                                             + ("; z3 symbolic execution of the inline-asm text" if any(e.get("module") == "asmsym" for e in c.get("engines", [])) else "")
+                                             + ("; z3 over the nightly MIR of the word kernels" if any(e.get("module") == "mirsmt" for e in c.get("engines", [])) else "")),
         ))
     na = []
     for pid in ALL:
